@@ -73,7 +73,8 @@ def st_slice_form(n, m):
         idx = st.just([])
     forms.append(st.builds(lambda i, how: {'k': 'ilist', 'idx': i, 'as': how}, idx,
                            st.sampled_from(['list', 'tuple', 'nested', 'np64', 'np32'])))
-    forms.append(st.builds(lambda bits: {'k': 'mask', 'bits': bits}, st.lists(st.booleans(), min_size=n, max_size=n)))
+    forms.append(st.builds(lambda bits, how: {'k': 'mask', 'bits': bits, 'as': how},
+                           st.lists(st.booleans(), min_size=n, max_size=n), st.sampled_from(['np', 'np', 'list', 'tuple'])))
     if m.cap_keys == 'req' and not m.taint and m.keys and len(set(m.keys)) == len(m.keys):
         forms.append(st.builds(lambda ks, how: {'k': 'keys', 'keys': ks, 'as': how},
                                st.lists(st.sampled_from(list(m.keys)), min_size=1, max_size=n + 1),
@@ -170,7 +171,7 @@ def st_stage(draw, op, node, m, ctx, allowed, budget):
                 'sort_fn': draw(st.sampled_from([None, 'stable_wrapper', 'inverting'])), 'in': node}
     if op == 'shard':
         k = draw(st.integers(1, n))
-        return {'op': 'shard', 'k': k, 'i': draw(st.integers(0, k - 1)), 'via': draw(st.sampled_from(['shard', 'split'])),
+        return {'op': 'shard', 'k': k, 'i': draw(st.integers(0, k - 1)), 'via': draw(st.sampled_from(['shard', 'split', 'shard_neg'])),
                 'in': node}
     if op == 'batch':
         return {'op': 'batch', 'n': draw(st.integers(1, 4)), 'drop_last': draw(st.booleans()), 'in': node}
